@@ -295,7 +295,15 @@ def run_property(prop, repo, tier, seed, jobs, only=None, t0=None):
         print("%s bounded stand-in: %s evaluations, %s violations%s" % (
             prop, bounded.get("evaluations"), len(bounded.get("violations", [])),
             (" ERROR " + str(bounded.get("error"))) if bounded.get("error") else ""))
-    return 1 if n_viol else 0
+    if n_viol:
+        return 1
+    berr = bool(bounded is not None and bounded.get("error"))
+    if undecided or crashes or berr:
+        # not a violation (never map unknown / unsupported / traceback to one) and not "held" either
+        print("UNDECIDED property=%s undecided_paths=%d engine_crashes=%d bounded_standin_error=%s (see evidence/%s.json)"
+              % (prop, len(undecided), len(crashes), berr, prop))
+        return 2
+    return 0
 
 
 def _within_known(kf, o):
